@@ -205,6 +205,84 @@ Section WithOracle.
     destruct (Z.eqb_spec (bitsize s) 0); lia.
   Qed.
 
+  (* RandomIntegerIterator as a state machine: the stored value always has the announced shape for the CURRENT bit size *)
+  Definition rii_inv (u e : bool) (st : rii_state) : Prop :=
+    1 <= rii_b st < two64 /\ rii_ok u e (rii_b st) (rii_v st).
+  Definition rii_op_ok (op : rii_op) : Prop :=
+    match op with RSetBits b => 1 <= b < two64 | _ => True end.
+  Definition rii_obs_ok (u e : bool) (x : Z * Z * option Z) : Prop :=
+    let '(b, v, o) := x in rii_ok u e b v /\ match o with Some y => rii_ok u e b y | None => True end.
+  Lemma rii_init_inv u e ss i : rii_bits ss < two64 -> rii_inv u e (fst (rii_init orc u e ss i)).
+  Proof.
+    intros Hb. unfold rii_init. pose proof (rii_bits_pos ss) as Hp.
+    pose proof (rii_next_ok u e (rii_bits ss) 0 i ltac:(lia)) as H.
+    destruct (rii_next orc u e (rii_bits ss) 0 i) as [v i1]. cbn [fst] in *. unfold rii_inv. cbn [rii_b rii_v]. split; [lia | assumption].
+  Qed.
+  Lemma rii_step_inv u e st op i :
+    rii_inv u e st -> rii_op_ok op ->
+    let '(st1, o, _) := rii_step orc u e st op i in
+    rii_inv u e st1 /\ rii_obs_ok u e (rii_b st1, rii_v st1, o).
+  Proof.
+    intros [Hb Hv] Hop. destruct op as [b | | a0 | | ss]; cbn [rii_step rii_op_ok] in *.
+    - pose proof (rii_next_ok u e b (rii_v st) i Hop) as H.
+      destruct (rii_next orc u e b (rii_v st) i) as [v i1]. cbn [fst] in H.
+      unfold rii_inv, rii_obs_ok. cbn [rii_b rii_v]. tauto.
+    - pose proof (rii_next_ok u e (rii_b st) (rii_v st) i Hb) as H.
+      destruct (rii_next orc u e (rii_b st) (rii_v st) i) as [v i1]. cbn [fst] in H.
+      unfold rii_inv, rii_obs_ok. cbn [rii_b rii_v]. tauto.
+    - pose proof (rii_next_ok u e (rii_b st) a0 i Hb) as H.
+      destruct (rii_next orc u e (rii_b st) a0 i) as [v i1]. cbn [fst] in H.
+      unfold rii_inv, rii_obs_ok. tauto.
+    - unfold rii_inv, rii_obs_ok. tauto.
+    - destruct (rii_init orc u e ss i) as [x i1]. unfold rii_inv, rii_obs_ok. tauto.
+  Qed.
+  Lemma rii_run_ok u e ops : forall st i,
+    rii_inv u e st -> Forall rii_op_ok ops ->
+    let '(obs, st', _) := rii_run orc u e st ops i in Forall (rii_obs_ok u e) obs /\ rii_inv u e st'.
+  Proof.
+    induction ops as [| op rest IH]; intros st i Hst Hops; cbn [rii_run].
+    - split; [constructor | assumption].
+    - inversion Hops as [| ? ? Hop Hrest]; subst.
+      pose proof (rii_step_inv u e st op i Hst Hop) as Hs.
+      destruct (rii_step orc u e st op i) as [[st1 o] i1]. destruct Hs as [Hst1 Hobs].
+      specialize (IH st1 i1 Hst1 Hrest). destruct (rii_run orc u e st1 rest i1) as [[obs st2] i2].
+      destruct IH as [H1 H2]. split; [constructor; assumption | assumption].
+  Qed.
+
+  (* QField<Rational>::random / nonzerorandom: the result is a reduced fraction with positive denominator *)
+  Lemma rat_reduce_canonical n d : 0 < d -> let '(rn, rd) := rat_reduce n d in Z.gcd rn rd = 1 /\ 0 < rd /\ rn * d = n * rd.
+  Proof.
+    intros Hd. unfold rat_reduce. set (g := Z.gcd n d).
+    assert (Hg : 0 < g).
+    { pose proof (Z.gcd_nonneg n d). assert (g <> 0) by (unfold g; intro E; apply Z.gcd_eq_0_r in E; lia). unfold g in *. lia. }
+    destruct (Z.gcd_divide_l n d) as [a Ha]. destruct (Z.gcd_divide_r n d) as [b Hb]. fold g in Ha, Hb.
+    assert (En : n / g = a) by (rewrite Ha at 1; apply Z.div_mul; lia).
+    assert (Ed : d / g = b) by (rewrite Hb at 1; apply Z.div_mul; lia).
+    split; [apply Z.gcd_div_gcd; [lia | reflexivity]|]. rewrite En, Ed. split; nia.
+  Qed.
+  Lemma qfield_draw_den fuel nz by_int bn bd i x j :
+    0 <= bd -> (by_int = true -> 0 < bd) -> qfield_draw orc fuel nz by_int bn bd i false = Some (x, j) -> 0 < x.
+  Proof.
+    intros H0 H1 E. unfold qfield_draw in E. destruct by_int.
+    - apply nonzerorandom_int_spec in E; [| auto]. cbn [in_range] in E. lia.
+    - apply nonzerorandom_2exp_spec in E; [| assumption]. cbn [in_range] in E. lia.
+  Qed.
+  Lemma qfield_random_canonical fuel nz by_int den_first bn bd i rn rd j :
+    0 <= bd -> (by_int = true -> 0 < bd) ->
+    qfield_random orc fuel nz by_int den_first bn bd i = Some (rn, rd, j) -> Z.gcd rn rd = 1 /\ 0 < rd.
+  Proof.
+    intros H0 H1 E. unfold qfield_random in E.
+    destruct (qfield_draw orc fuel nz by_int bn bd i (negb den_first)) as [[x i1]|] eqn:E1; [| discriminate].
+    destruct (qfield_draw orc fuel nz by_int bn bd i1 den_first) as [[y i2]|] eqn:E2; [| discriminate].
+    assert (Hd : 0 < (if den_first then x else y)).
+    { destruct den_first; cbn [negb] in *; eapply qfield_draw_den; eassumption. }
+    destruct den_first.
+    - pose proof (rat_reduce_canonical y x Hd) as Hc. destruct (rat_reduce y x) as [a b].
+      injection E as <- <- <-. tauto.
+    - pose proof (rat_reduce_canonical x y Hd) as Hc. destruct (rat_reduce x y) as [a b].
+      injection E as <- <- <-. tauto.
+  Qed.
+
   (* ModularRandIter<Modular<Integer>> : canonical residue *)
   Lemma modint_randiter_canonical size p i : 0 < p -> 0 <= fst (modint_randiter orc size p i) < p.
   Proof.
@@ -246,6 +324,25 @@ Definition Random_integer_iterator_stmt : Prop :=
   forall orc, oracle_ok orc -> forall n u e samplesize r0 i,
     rii_bits samplesize < two64 ->
     Forall (rii_ok u e (rii_bits samplesize)) (fst (rii_draws orc n u e (rii_bits samplesize) r0 i)).
+Definition Rii_state_machine_stmt : Prop :=
+  forall orc, oracle_ok orc -> forall u e ss ops i,
+    rii_bits ss < two64 -> Forall rii_op_ok ops ->
+    let '(st0, i0) := rii_init orc u e ss i in
+    let '(obs, st', _) := rii_run orc u e st0 ops i0 in
+    rii_inv u e st0 /\ Forall (rii_obs_ok u e) obs /\ rii_inv u e st'.
+Lemma rii_state_machine_thm : Rii_state_machine_stmt.
+Proof.
+  intros orc H u e ss ops i Hb Hops. pose proof (rii_init_inv orc H u e ss i Hb) as H0.
+  destruct (rii_init orc u e ss i) as [st0 i0]. cbn [fst] in H0.
+  pose proof (rii_run_ok orc H u e ops st0 i0 H0 Hops) as Hr.
+  destruct (rii_run orc u e st0 ops i0) as [[obs st'] i']. tauto.
+Qed.
+Definition Qfield_random_stmt : Prop :=
+  forall orc, oracle_ok orc -> forall fuel nz by_int den_first bn bd i rn rd j,
+    0 <= bd -> (by_int = true -> 0 < bd) ->
+    qfield_random orc fuel nz by_int den_first bn bd i = Some (rn, rd, j) -> Z.gcd rn rd = 1 /\ 0 < rd.
+Lemma qfield_random_thm : Qfield_random_stmt.
+Proof. intros orc H. intros. eapply qfield_random_canonical; eassumption. Qed.
 Definition Modint_randiter_stmt : Prop :=
   forall orc, oracle_ok orc -> forall size p i, 0 < p -> 0 <= fst (modint_randiter orc size p i) < p.
 
